@@ -28,3 +28,73 @@ Print Assumptions C05_proof_unique.
 
 Example C05_hasher_exists : HasherOK FreeH /\ HasherCF FreeH.
 Proof. exact (conj FreeH_OK FreeH_CF). Qed.
+
+(* ------------------------------------------------------------------------------------------ *)
+(* the merkle read path: SeekPath.v mirrors what Session::prove does (merkle/seek.rs Seeker /
+   SeekRequest::continue_seek: node kinds by MSB, six bits per page, sibling collection, the
+   elided-children bit, the rebuild of the pages below an elided position from the beatree's
+   leaves, compute_root_node) over the merkle pages and key/value pairs decoded by Image.v.  This
+   closes the note "seek / page loading are not modelled": on every image whose wf_merkle verdict
+   passes, the mirror's output IS the canonical proof, stored pages and elided pages alike.      *)
+From Nomt Require Import Emit Image SeekPath SeekPath_proofs.
+
+(* [enc] is the 32-byte form of the hasher's nodes; the oracle hypotheses: hash_of (aid t) is the
+   encoded hash of every reference node (oracle_ok), the terminator is 32 zero bytes, and the MSB
+   labelling read by the code (node_kind) is the hasher's kind labelling *)
+Theorem C05_seek_refines : forall (H : Hasher) (enc : node H -> list N) hash_of img,
+    HasherOK H -> enc (TERM H) = ZERO_NODE -> (forall n, node_kind (enc n) = kind H n) ->
+    oracle_ok H enc hash_of (ref_trie img) ->
+    wf_merkle hash_of img = true -> wf_root img = true -> all_len 256 (abs_kv img) = true ->
+    forall k, length k = 256 ->
+    seek_img hash_of img k =
+    Some (map enc (pp_siblings (canonical_proof H 256 (abs_kv img) k)),
+          pp_terminal (canonical_proof H 256 (abs_kv img) k)).
+Proof. exact SeekPath_proofs.seek_refines. Qed.
+Print Assumptions C05_seek_refines.
+
+(* for the images the decoder produces the key-length clause is a theorem *)
+Theorem C05_seek_refines_decoded : forall (H : Hasher) (enc : node H -> list N) hash_of fs img,
+    decode_image fs = Image.Ok img ->
+    HasherOK H -> enc (TERM H) = ZERO_NODE -> (forall n, node_kind (enc n) = kind H n) ->
+    oracle_ok H enc hash_of (ref_trie img) ->
+    wf_merkle hash_of img = true -> wf_root img = true ->
+    forall k, length k = 256 ->
+    seek_img hash_of img k =
+    Some (map enc (pp_siblings (canonical_proof H 256 (abs_kv img) k)),
+          pp_terminal (canonical_proof H 256 (abs_kv img) k)).
+Proof. exact SeekPath_proofs.seek_refines_decoded. Qed.
+Print Assumptions C05_seek_refines_decoded.
+
+Theorem C05_decode_keys_256 : forall fs img,
+    decode_image fs = Image.Ok img -> all_len 256 (abs_kv img) = true.
+Proof. exact SeekPath_proofs.decode_keys_256. Qed.
+Print Assumptions C05_decode_keys_256.
+
+(* the same over a page map and key/value pairs alone *)
+Theorem C05_seek_refines_kv : forall (H : Hasher) (enc : node H -> list N) hash_of pages (KV : kv),
+    HasherOK H -> enc (TERM H) = ZERO_NODE -> (forall n, node_kind (enc n) = kind H n) ->
+    oracle_ok H enc hash_of (fst (annotate (mk 256 0 KV) 1)) ->
+    mw_fail (merkle_walk hash_of pages (fst (annotate (mk 256 0 KV) 1))) = None ->
+    match KV with [] | [_] => root_page_clean pages | _ => true end = true ->
+    all_len 256 KV = true ->
+    forall k, length k = 256 ->
+    seek hash_of pages KV k =
+    Some (map enc (pp_siblings (canonical_proof H 256 KV k)), pp_terminal (canonical_proof H 256 KV k)).
+Proof. exact SeekPath_proofs.seek_refines_kv. Qed.
+Print Assumptions C05_seek_refines_kv.
+
+(* what a passing merkle walk says about one node of the reference trie: its slot holds the
+   oracle's bytes, and below it the pages are stored / marked elided as [good] spells out *)
+Theorem C05_visit_good : forall hash_of pages t lab pd j acc ctx s,
+    mw_fail (visit hash_of pages t lab pd j acc ctx s) = None ->
+    mw_fail s = None /\ good hash_of pages t lab j acc ctx.
+Proof. exact SeekPath_proofs.visit_good. Qed.
+Print Assumptions C05_visit_good.
+
+(* non-vacuity: the hypotheses hold for the hand-made store of SeekPath.v (two stored pages, one
+   elided page, free-term hasher with a toy 32-byte encoding) *)
+Example C05_seek_refines_applies : forall k, length k = 256 ->
+    seek_img ex_ho ex_image k =
+    Some (map toy_enc (pp_siblings (canonical_proof FreeH 256 (abs_kv ex_image) k)),
+          pp_terminal (canonical_proof FreeH 256 (abs_kv ex_image) k)).
+Proof. exact SeekPath_proofs.seek_refines_applies. Qed.
